@@ -8,6 +8,19 @@
 //! that propose / commit / conflict with pooled transactions, and mining of N's own templates.
 //! After every operation the pool is dumped (hook H5, under the pool's own lock) and judged by
 //! recomputation; after every tip change it is judged against RefChain.
+//!
+//! Besides the random mix every session runs directed scenarios (built from the same operations,
+//! judged by the same oracles) for histories the mix reaches too rarely:
+//! * `op_dep_spend`: pooled B has a cell dep on a cell that pooled A spends; a block (extension or
+//!   competing branch) commits A only;
+//! * `op_race`: a submission is parked (gate at hook point `pool::before_submit_lock`, after its
+//!   verification, before the pool lock) while a block arrives that spends one of its inputs /
+//!   a cell it depends on / commits the transaction itself; the pool processes the tip change,
+//!   then the submission is released;
+//! * sessions with a small consensus `max_block_bytes` (`op_late_fill`: transactions proposed on
+//!   chain first reach the pool late and fill the template, then an uncle candidate / fresh
+//!   proposals arrive) and with a small `max_block_cycles` (`op_cpfp`: child-pays-for-parent
+//!   chain next to independent high-fee-rate transactions); every template is sealed and verified.
 
 use ckb_app_config::TxPoolConfig;
 use ckb_types::core::{BlockView, FeeRate, TransactionView};
@@ -16,6 +29,7 @@ use ckb_types::prelude::*;
 use ckb_tx_pool::verif::{VerifEntry, VerifPoolDump};
 use serde_json::json;
 use std::collections::{BTreeSet, HashMap, HashSet};
+use std::sync::atomic::{AtomicU64, Ordering};
 use std::time::{Duration, Instant};
 use vbase::{Args, Report, Rng};
 use vnode::builder::{self, OutSpec};
@@ -31,6 +45,23 @@ pub struct Reports {
     pub c12: Report,
     pub c13: Report,
 }
+
+/// Consensus flavour of a session. `SmallBytes`: `max_block_bytes` holds only a handful of
+/// transactions (template size bookkeeping is exercised at the limit); `SmallCycles`:
+/// `max_block_cycles` is 2.5 or 3.5 times the cycles of one single-group transaction (package
+/// selection is exercised at the cycle limit).
+#[derive(Clone, Copy, PartialEq, Eq, Debug)]
+enum Flavor {
+    Plain,
+    SmallBytes,
+    SmallCycles,
+}
+
+/// Cycles of one transaction with a single always_success input group, as reported by the pool
+/// (measured on the first such entry seen in this process; 0 = not seen yet).
+static UNIT_CYCLES: AtomicU64 = AtomicU64::new(0);
+/// Value used before the first measurement (always_success in this tree).
+const UNIT_CYCLES_DEFAULT: u64 = 539;
 
 struct PoolCfg {
     rbf: bool,
@@ -69,6 +100,15 @@ struct Sess {
     /// cause recorded when a pooled entry was first seen with a missing input/dep creator
     /// (the condition persists over later tip changes)
     dead_cause: HashMap<(ProposalShortId, H), &'static str>,
+    flavor: Flavor,
+    /// consensus limits of this session
+    max_block_bytes: u64,
+    max_block_cycles: u64,
+    /// independent random stream for the directed scenarios
+    xrng: Rng,
+    /// work id of the last template that was verified (templates are re-verified only when the
+    /// assembler produced a new one)
+    last_work_id: Option<u64>,
 }
 
 fn id_hex(id: &ProposalShortId) -> String {
@@ -86,8 +126,8 @@ pub fn run(args: &Args) -> i32 {
     let mk = |id: &str, rule: &str| Report::new(id, "exploration", args, rule);
     let mut r = Reports {
         c11: mk("C11", "random pool operation sequences on a real tx-pool service (submit over tx DAGs, RBF, remove, expire, size eviction, blocks, reorgs, template mining); after every operation the dump of the pool (taken under its lock) is judged by recomputation; distinct = pool link-graph shapes (sorted (status, #parents, #children, ancestors_count) tuples) seen at check time"),
-        c12: mk("C12", "after every tip change (extension or reorg of depth 1..w_far+3) and pool quiescence the pool is compared with the RefChain main chain (committed / dead / unknown inputs, header deps, re-add completeness via test_accept_tx, stage vs proposal window, reorg notification log); distinct = (fork depth, attached, pool size, stage histogram)"),
-        c13: mk("C13", "block templates requested after every operation (and by a poller racing with updates) are sealed and run through the node's own full verification (header, block, non-contextual txs, contextual on a dropped store transaction); a fraction is mined on N and on a second node; distinct = (tip, #txs, #proposals, #uncles, epoch position)"),
+        c12: mk("C12", "after every tip change (extension or reorg of depth 1..w_far+3) and pool quiescence the pool is compared with the RefChain main chain (committed / dead / unknown inputs, header deps, re-add completeness via test_accept_tx, stage vs proposal window, reorg notification log); directed histories: dep user pooled while the pooled spender of the dep cell is committed, submissions parked before the pool lock across a tip change that kills their input / dep / commits them; distinct = (fork depth, attached, pool size, stage histogram)"),
+        c13: mk("C13", "block templates requested after every operation (and by a poller racing with updates) are sealed and run through the node's own full verification (header, block, non-contextual txs, contextual on a dropped store transaction); a fraction is mined on N and on a second node; sessions with a small max_block_bytes (templates filled late by already-proposed transactions, then uncle candidates / new proposals) and with max_block_cycles of 2.5 / 3.5 transactions (child-pays-for-parent packages next to independent transactions); distinct = (tip, #txs, #proposals, #uncles, epoch position)"),
     };
     let mut rng = Rng::new(args.seed ^ 0x9001);
     let sessions = args.get_u64("sessions", args.tier.pick(12, 200));
@@ -122,11 +162,17 @@ pub fn run(args: &Args) -> i32 {
     r.c12.require("tip_changes", 3);
     r.c12.require("reorgs", 1);
     r.c12.require("obs.readd_candidates", 1);
+    r.c12.require("obs.dep_user_pooled_while_pooled_spender_committed", 4);
+    r.c12.require("obs.race.submit_held_across_tip_change", 4);
     r.c13.require("templates_verified", 5);
     r.c13.require("templates_with_txs", 1);
+    r.c13.require("obs.late_fill.templates_after_uncle_or_proposal_update", 3);
+    r.c13.require("obs.cpfp.templates_at_cycle_limit", 2);
     for rep in [&mut r.c11, &mut r.c12, &mut r.c13] {
         rep.assume("pool dump is taken through hook H5 under the pool's write lock; ckb-types is used to read transaction fields");
     }
+    r.c12.assume("a submission parked at hook point pool::before_submit_lock (H5) holds no pool lock: the point sits right before with_tx_pool_write_lock in submit_entry; the hold is a gate released by the engine once get_tx_pool_info reports the new tip");
+    r.c13.assume("the block assembler digests its update messages asynchronously: after late updates the engine polls until the template's work id is stable for a few polls (bounded) before judging; every template taken is judged whenever it is taken");
     let mut code = 0;
     for (id, rep) in [("C11", &r.c11), ("C12", &r.c12), ("C13", &r.c13)] {
         if args.wants(id) {
@@ -153,15 +199,46 @@ fn run_session(rng: &mut Rng, si: u64, n_ops: u64, r: &mut Reports) {
         }
     }
     params.issued_cells = 40;
+    // consensus flavour (independent of the window / epoch choice above: 12 combinations)
+    let flavor = match si % 4 {
+        1 => Flavor::SmallBytes,
+        3 => Flavor::SmallCycles,
+        _ => Flavor::Plain,
+    };
+    let mut xrng = rng.clone().fork(0x5ce0 + si);
+    let unit = match UNIT_CYCLES.load(Ordering::Relaxed) {
+        0 => UNIT_CYCLES_DEFAULT,
+        u => u,
+    };
+    match flavor {
+        Flavor::Plain => {}
+        Flavor::SmallBytes => {
+            // header + cellbase + extension + two uncles + proposals take up to ~1500 bytes; the
+            // rest holds three to six small transactions
+            params.max_block_bytes = Some(2_400 + xrng.below(800));
+            params.issued_cells = 64;
+        }
+        Flavor::SmallCycles => {
+            // 2.5 or 3.5 single-group transactions
+            params.max_block_cycles = Some(unit * (5 + 2 * xrng.below(2)) / 2);
+            params.issued_cells = 56;
+        }
+    }
     let gi = consensus::build(&params);
+    let max_block_bytes = gi.consensus.max_block_bytes();
+    let max_block_cycles = gi.consensus.max_block_cycles();
     // every third session has roomy limits so that policy cannot explain an absent transaction
     let roomy = si % 3 == 2;
-    let pcfg = PoolCfg {
+    let mut pcfg = PoolCfg {
         rbf: rng.chance(600, 1000),
         max_pool_bytes: if roomy { 10_000_000 } else { 3_000 + rng.usize_below(9_000) },
         max_ancestors: if roomy { 30 } else { 3 + rng.usize_below(6) },
         expiry_hours: 1 + rng.below(3) as u8,
     };
+    if flavor == Flavor::SmallBytes && !roomy {
+        // the late-fill scenario needs its ten or so small transactions to stay pooled
+        pcfg.max_pool_bytes = pcfg.max_pool_bytes.max(8_000);
+    }
     let min_fee_rate = 1000u64;
     let min_rbf_rate = if pcfg.rbf { 1500 } else { 1000 };
     let tx_pool_config = TxPoolConfig {
@@ -174,7 +251,7 @@ fn run_session(rng: &mut Rng, si: u64, n_ops: u64, r: &mut Reports) {
     };
     let now0 = params.genesis_timestamp + 60_000;
     vnode::node::set_time(now0);
-    let tcfg = TreeCfg {
+    let mut tcfg = TreeCfg {
         n_blocks: 0,
         invalid: 0,
         max_new_txs: 1,
@@ -183,6 +260,18 @@ fn run_session(rng: &mut Rng, si: u64, n_ops: u64, r: &mut Reports) {
         ts_step_max: 8_000,
         ..Default::default()
     };
+    match flavor {
+        Flavor::Plain => {}
+        Flavor::SmallBytes => {
+            // the builder's own blocks must respect the small limit as well
+            tcfg.max_commit_bytes = (max_block_bytes as usize).saturating_sub(1_500);
+        }
+        Flavor::SmallCycles => {
+            // only pool-made single-group transactions exist in these sessions
+            tcfg.max_new_txs = 0;
+            tcfg.max_commits = (max_block_cycles / unit) as usize;
+        }
+    }
     let tg = TreeGen::new(&gi, tcfg, rng.next_u64());
     let ncfg = NodeCfg {
         tx_pool: Some(tx_pool_config),
@@ -212,6 +301,11 @@ fn run_session(rng: &mut Rng, si: u64, n_ops: u64, r: &mut Reports) {
         tainted: HashSet::new(),
         tainted_mid: HashSet::new(),
         dead_cause: HashMap::new(),
+        flavor,
+        max_block_bytes,
+        max_block_cycles,
+        xrng,
+        last_work_id: None,
     };
     // warm-up: a few blocks so that rewards / windows exist
     for _ in 0..(3 + s.rng.below(3)) {
@@ -219,8 +313,34 @@ fn run_session(rng: &mut Rng, si: u64, n_ops: u64, r: &mut Reports) {
             return;
         }
     }
-    for _ in 0..n_ops {
-        let k = s.rng.below(100);
+    for oi in 0..n_ops {
+        // directed scenarios at fixed positions of every session (they are also part of the
+        // random mix below): the histories the random mix alone reaches too rarely
+        let directed = match oi {
+            2 => Some(0),
+            9 => Some(1),
+            16 => Some(2),
+            30 => Some(3),
+            44 => Some(1),
+            58 => Some(0),
+            _ => None,
+        };
+        if let Some(dk) = directed {
+            let ok = match dk {
+                0 => s.op_flavor_scenario(r),
+                1 => {
+                    let reorg = s.xrng.chance(400, 1000);
+                    s.op_race(r, reorg)
+                }
+                2 => s.op_dep_spend(r, false),
+                _ => s.op_dep_spend(r, true),
+            };
+            if !ok {
+                break;
+            }
+            continue;
+        }
+        let k = s.rng.below(108);
         let ok = match k {
             0..=34 => s.op_submit(r, false),
             35..=44 => s.op_submit(r, true),
@@ -233,7 +353,16 @@ fn run_session(rng: &mut Rng, si: u64, n_ops: u64, r: &mut Reports) {
             }
             78..=91 => s.op_template(r),
             92..=95 => s.op_time(r),
-            _ => s.op_submit_burst(r),
+            96..=99 => s.op_submit_burst(r),
+            100..=102 => {
+                let reorg = s.xrng.chance(400, 1000);
+                s.op_dep_spend(r, reorg)
+            }
+            103..=105 => {
+                let reorg = s.xrng.chance(400, 1000);
+                s.op_race(r, reorg)
+            }
+            _ => s.op_flavor_scenario(r),
         };
         if !ok {
             break;
@@ -249,6 +378,7 @@ impl Sess {
         json!({
             "rbf": self.pcfg.rbf, "max_pool_bytes": self.pcfg.max_pool_bytes, "max_ancestors": self.pcfg.max_ancestors,
             "window": [self.tg.rc.window.0, self.tg.rc.window.1],
+            "flavor": format!("{:?}", self.flavor), "max_block_bytes": self.max_block_bytes, "max_block_cycles": self.max_block_cycles,
             "ops_tail": self.ops.iter().rev().take(40).rev().collect::<Vec<_>>(),
             "pool_entries": self.dump_summary,
             "extra": extra,
@@ -378,7 +508,12 @@ impl Sess {
                 replaced_roots.insert(id);
             }
         }
-        let n_in = if inputs.is_empty() { 1 + self.rng.usize_below(2) } else { self.rng.usize_below(2) };
+        let mut n_in = if inputs.is_empty() { 1 + self.rng.usize_below(2) } else { self.rng.usize_below(2) };
+        if self.flavor == Flavor::SmallCycles {
+            // single input = single script group: every transaction of the session costs the
+            // same number of cycles
+            n_in = if inputs.is_empty() { 1 } else { 0 };
+        }
         self.rng.shuffle(&mut cands);
         // prefer pool outputs sometimes to build chains
         if self.rng.chance(500, 1000) {
@@ -424,20 +559,33 @@ impl Sess {
         let Some(tx) = self.make_tx(inputs, fee, &deps, &hdeps) else {
             return true;
         };
+        self.submit_tx(r, &tx, &pre, if conflict { "(conflict)" } else { "" }).is_some()
+    }
+
+    /// Submit `tx` through `submit_local_tx` on the quiescent pool whose dump is `pre`, wait for
+    /// quiescence and judge the outcome (membership, replacement accounting, the whole dump).
+    /// Returns whether the pool accepted it; None = harness failure (session stops).
+    fn submit_tx(&mut self, r: &mut Reports, tx: &TransactionView, pre: &VerifPoolDump, label: &str) -> Option<bool> {
         self.known.insert(tx.proposal_short_id(), tx.clone());
         let res = self.n.shared.tx_pool_controller().submit_local_tx(tx.clone());
         let res = match res {
             Ok(x) => x,
             Err(e) => {
                 r.c11.inconclusive(&format!("harness: submit_local_tx channel error {e}"));
-                return false;
+                return None;
             }
         };
-        self.ops.push(format!("submit{} {} fee={} -> {}", if conflict { "(conflict)" } else { "" }, hx(&h(&tx.hash())), fee, match &res { Ok(_) => "ok".to_string(), Err(e) => format!("{e}").chars().take(70).collect() }));
+        self.judge_submission(r, tx, pre, label, res.map(|_| ()).map_err(|e| e.to_string()))
+    }
+
+    /// Second half of a submission: the pool has answered `res`; wait for quiescence and judge.
+    fn judge_submission(&mut self, r: &mut Reports, tx: &TransactionView, pre: &VerifPoolDump, label: &str, res: Result<(), String>) -> Option<bool> {
+        let fee = self.fee_of(tx, pre);
+        self.ops.push(format!("submit{} {} fee={} -> {}", label, hx(&h(&tx.hash())), fee.map(|f| f.to_string()).unwrap_or_else(|| "?".into()), match &res { Ok(_) => "ok".to_string(), Err(e) => e.chars().take(70).collect() }));
         r.c11.count(if res.is_ok() { "ops.submit_ok" } else { "ops.submit_rejected" });
         let Some(post) = self.quiesce() else {
             r.c11.inconclusive("watchdog: pool did not reach quiescence in 30 s");
-            return false;
+            return None;
         };
         let id = tx.proposal_short_id();
         let in_pool = post.entries.iter().any(|e| e.id == id);
@@ -445,7 +593,7 @@ impl Sess {
         if res.is_ok() != in_pool {
             r.c11.violation(
                 if res.is_ok() { "submit.accepted_tx_not_in_pool" } else { "submit.rejected_tx_in_pool" },
-                format!("submit_local_tx returned {:?} but pool membership is {}", res.as_ref().map(|_| ()).map_err(|e| e.to_string()), in_pool),
+                format!("submit_local_tx returned {:?} but pool membership is {}", res, in_pool),
                 self.witness(json!({"tx": vbase::hex(tx.hash().as_slice())})),
             );
         }
@@ -492,11 +640,26 @@ impl Sess {
         if conflicting.is_empty() && evicted > 0 {
             r.c11.count_n("obs.evicted_by_size", evicted as u64);
         }
-        if matches!(&res, Err(e) if e.to_string().contains("Full")) {
+        if matches!(&res, Err(e) if e.contains("Full")) {
             r.c11.count("obs.evicted_by_size");
         }
+        if res.is_ok() && UNIT_CYCLES.load(Ordering::Relaxed) == 0 && tx.inputs().len() == 1 {
+            if let Some(e) = post.entries.iter().find(|e| e.id == id) {
+                UNIT_CYCLES.store(e.cycles, Ordering::Relaxed);
+            }
+        }
         self.check_pool(&post, r);
-        true
+        Some(res.is_ok())
+    }
+
+    /// fee of `tx` if all its inputs are known to the model or the pool dump
+    fn fee_of(&self, tx: &TransactionView, d: &VerifPoolDump) -> Option<u64> {
+        let mut cap_in = 0u64;
+        for op in tx.input_pts_iter() {
+            cap_in += self.capacity_of(&op, d)?;
+        }
+        let cap_out: u64 = tx.outputs().into_iter().map(|o| Into::<u64>::into(o.capacity())).sum();
+        cap_in.checked_sub(cap_out)
     }
 
     fn op_submit_burst(&mut self, r: &mut Reports) -> bool {
@@ -580,7 +743,23 @@ impl Sess {
     /// depth 0: extend the tip by one block. depth d>0: build a competing branch from the
     /// ancestor d blocks below the tip that is one block longer, deliver it in order.
     fn op_block(&mut self, r: &mut Reports, depth: u64) -> bool {
+        self.op_block_ex(r, depth, &[], true)
+    }
+
+    /// `op_block` with control over the proposals: `forced` transactions are proposed by the
+    /// first new block in any case; `pool_draw` adds a random subset of the pooled ones.
+    fn op_block_ex(&mut self, r: &mut Reports, depth: u64, forced: &[TransactionView], pool_draw: bool) -> bool {
         let Some(pre) = self.quiesce() else { return false };
+        let (new_blocks, old_tip, depth) = self.build_blocks(&pre, depth, forced, pool_draw);
+        if !self.deliver(&new_blocks, r) {
+            return false;
+        }
+        self.finish_block_op(&pre, old_tip, &new_blocks, depth, r)
+    }
+
+    /// Build (on the builder node, registered in the model, not yet delivered to N) the blocks of
+    /// one block operation. Returns (new blocks in order, tip before, effective depth).
+    fn build_blocks(&mut self, pre: &VerifPoolDump, depth: u64, forced: &[TransactionView], pool_draw: bool) -> (Vec<H>, H, u64) {
         let tip = self.n_tip();
         debug_assert_eq!(tip, self.tg.tip());
         let tip_n = self.tg.rc.get(&tip).number;
@@ -589,21 +768,30 @@ impl Sess {
         // proposals drawn from the pool
         let mut pool_txs: Vec<TransactionView> = pre.entries.iter().map(|e| e.tx.clone()).collect();
         self.rng.shuffle(&mut pool_txs);
+        let with_forced = |sel: &[TransactionView]| -> Vec<TransactionView> {
+            let mut v: Vec<TransactionView> = forced.to_vec();
+            for t in sel {
+                if !v.iter().any(|x| x.hash() == t.hash()) {
+                    v.push(t.clone());
+                }
+            }
+            v
+        };
         let mut new_blocks: Vec<H> = vec![];
         if depth == 0 {
-            let take = self.rng.usize_below(pool_txs.len().min(6) + 1);
+            let take = if pool_draw { self.rng.usize_below(pool_txs.len().min(6) + 1) } else { 0 };
             if let Some(ts) = self.catch_up_ts.take() {
                 self.tg.cfg.ts_step_max = ts.saturating_sub(self.tg.rc.get(&tip).block.timestamp()).max(2);
             }
-            let x = self.tg.extend_ex(&tip, &pool_txs[..take]);
+            let x = self.tg.extend_ex(&tip, &with_forced(&pool_txs[..take]));
             self.tg.cfg.ts_step_max = 8_000;
             new_blocks.push(x);
         } else {
             let anc = self.tg.rc.ancestor_at(&tip, tip_n - depth).unwrap();
             let mut cur = anc;
             for i in 0..(depth + 1) {
-                let take = if i == 0 { self.rng.usize_below(pool_txs.len().min(4) + 1) } else { 0 };
-                cur = self.tg.extend_ex(&cur, &pool_txs[..take]);
+                let take = if i == 0 && pool_draw { self.rng.usize_below(pool_txs.len().min(4) + 1) } else { 0 };
+                cur = if i == 0 { self.tg.extend_ex(&cur, &with_forced(&pool_txs[..take])) } else { self.tg.extend_ex(&cur, &[]) };
                 new_blocks.push(cur);
             }
         }
@@ -612,6 +800,14 @@ impl Sess {
             for tx in b.transactions().iter().skip(1) {
                 self.known.entry(tx.proposal_short_id()).or_insert_with(|| tx.clone());
             }
+        }
+        (new_blocks, old_tip, depth)
+    }
+
+    /// Deliver built blocks to the node under test, in order.
+    fn deliver(&mut self, blocks: &[H], r: &mut Reports) -> bool {
+        for x in blocks {
+            let b = std::sync::Arc::clone(&self.tg.rc.get(x).block);
             if std::env::var("VERIF_DEBUG").is_ok() {
                 eprintln!("    deliver block #{} {} commits={:?} proposals={:?}", b.number(), hx(x), b.transactions().iter().skip(1).map(|t| hx(&h(&t.hash()))).collect::<Vec<_>>(), b.union_proposal_ids_iter().map(|i| id_hex(&i)).collect::<Vec<_>>());
             }
@@ -625,6 +821,12 @@ impl Sess {
                 return false;
             }
         }
+        true
+    }
+
+    /// Bookkeeping after the blocks of one block operation were delivered, then the checks that
+    /// follow every tip change.
+    fn finish_block_op(&mut self, pre: &VerifPoolDump, old_tip: H, new_blocks: &[H], depth: u64, r: &mut Reports) -> bool {
         let new_tip = *new_blocks.last().unwrap();
         self.now = self.now.max(self.tg.rc.get(&new_tip).block.timestamp());
         vnode::node::set_time(self.now);
@@ -633,7 +835,7 @@ impl Sess {
         if depth > 0 {
             r.c12.count("reorgs");
         }
-        self.after_tip_change(&pre, old_tip, r)
+        self.after_tip_change(pre, old_tip, r)
     }
 
     fn after_tip_change(&mut self, pre: &VerifPoolDump, old_tip: H, r: &mut Reports) -> bool {
@@ -645,6 +847,12 @@ impl Sess {
             r.c12.inconclusive("watchdog: pool did not catch up with the chain tip in 30 s");
             return false;
         };
+        self.after_tip_change_with(pre, post, old_tip, r)
+    }
+
+    /// The checks after a tip change, on a dump `post` taken at quiescence after it (the dump
+    /// carries the reorg notifications processed since the previous dump).
+    fn after_tip_change_with(&mut self, pre: &VerifPoolDump, post: VerifPoolDump, old_tip: H, r: &mut Reports) -> bool {
         // cause bookkeeping for known findings: a pooled transaction committed before one of its
         // pooled ancestors (possible through cell-dep ordering) while descendants stay pooled
         {
@@ -998,6 +1206,37 @@ impl Sess {
             detached.reverse();
             attached.reverse();
         }
+        // evidence: a pooled transaction had a cell dep on a cell that an attached block spends
+        // (the dep user itself is not committed by the attached blocks)
+        {
+            let mut attached_ids: HashSet<ProposalShortId> = HashSet::new();
+            let mut spent_by_attached: HashSet<(H, u32)> = HashSet::new();
+            let mut spent_by_pooled_attached: HashSet<(H, u32)> = HashSet::new();
+            for x in &attached {
+                for tx in rc.get(x).block.transactions().iter().skip(1) {
+                    let id = tx.proposal_short_id();
+                    let pooled = pre.entries.iter().any(|e| e.id == id);
+                    for op in tx.input_pts_iter() {
+                        spent_by_attached.insert(op_key(&op));
+                        if pooled {
+                            spent_by_pooled_attached.insert(op_key(&op));
+                        }
+                    }
+                    attached_ids.insert(id);
+                }
+            }
+            for e in &pre.entries {
+                if attached_ids.contains(&e.id) {
+                    continue;
+                }
+                if e.tx.cell_deps_iter().any(|d| spent_by_attached.contains(&op_key(&d.out_point()))) {
+                    r.c12.count("obs.dep_user_pooled_while_spender_committed");
+                }
+                if e.tx.cell_deps_iter().any(|d| spent_by_pooled_attached.contains(&op_key(&d.out_point()))) {
+                    r.c12.count("obs.dep_user_pooled_while_pooled_spender_committed");
+                }
+            }
+        }
         // (a) nothing committed on the main chain is pooled
         for e in &post.entries {
             if st.tx_info.contains_key(&h(&e.tx.hash())) {
@@ -1177,15 +1416,52 @@ impl Sess {
     // C13
 
     fn op_template(&mut self, r: &mut Reports) -> bool {
-        let Some(pre) = self.quiesce() else { return false };
+        self.check_template(r, 450, false).is_some()
+    }
+
+    /// Let the block assembler digest the update messages it has been sent: poll until the work
+    /// id of the template has not changed for a few polls (bounded; a template is judged whenever
+    /// it is taken, so polling too briefly only loses detection power).
+    fn settle_template(&self) {
+        let mut last: Option<u64> = None;
+        let mut stable = 0;
+        for _ in 0..40 {
+            if let Ok(Ok(t)) = self.n.shared.tx_pool_controller().get_block_template(None, None, None) {
+                let w: u64 = t.work_id.into();
+                if last == Some(w) {
+                    stable += 1;
+                    if stable >= 5 {
+                        return;
+                    }
+                } else {
+                    stable = 0;
+                    last = Some(w);
+                }
+            }
+            std::thread::sleep(Duration::from_millis(1));
+        }
+    }
+
+    /// Take the current template, seal it and run it through the node's own verification (plus
+    /// the structural checks); with probability `mine_pm` per mille it is then mined. With
+    /// `only_if_new` a template whose work id was verified before is skipped.
+    /// Returns None when the session must stop; Some((txs, uncles, proposals, cycles)) of the
+    /// verified template otherwise (zeros when it was stale / skipped).
+    fn check_template(&mut self, r: &mut Reports, mine_pm: u64, only_if_new: bool) -> Option<(usize, usize, usize, u64)> {
+        let none = Some((0, 0, 0, 0));
+        let Some(pre) = self.quiesce() else { return None };
         let tip = self.n_tip();
         let tpl = match self.n.shared.tx_pool_controller().get_block_template(None, None, None) {
             Ok(Ok(t)) => t,
             other => {
                 r.c13.inconclusive(&format!("harness: get_block_template failed: {:?}", other.map(|x| x.map(|_| ()).map_err(|e| e.to_string())).map_err(|e| e.to_string())));
-                return false;
+                return None;
             }
         };
+        let work_id: u64 = tpl.work_id.into();
+        if only_if_new && self.last_work_id == Some(work_id) {
+            return none;
+        }
         let parent: packed::Byte32 = tpl.parent_hash.clone().into();
         if h(&parent) != tip {
             // stale template: must catch up within a bounded number of polls
@@ -1204,8 +1480,9 @@ impl Sess {
             if !ok {
                 r.c13.inconclusive("template stayed stale for 200 polls");
             }
-            return true;
+            return none;
         }
+        self.last_work_id = Some(work_id);
         let cycles_limit: u64 = tpl.cycles_limit.into();
         let bytes_limit: u64 = tpl.bytes_limit.into();
         let n_txs = tpl.transactions.len();
@@ -1226,22 +1503,78 @@ impl Sess {
         }
         r.c13.distinct(vbase::fnv1a(format!("{:?}{}{}{}{}", tip, n_txs, n_props, n_uncles, block.epoch().index()).as_bytes()));
         let wit = self.witness(json!({"template_parent": vbase::hex(&tip), "txs": n_txs, "proposals": n_props, "uncles": n_uncles}));
+        let tpl_cycles;
         match full_verify_noncommit(&self.n.shared, &block) {
             Ok(cycles) => {
+                tpl_cycles = cycles;
                 if cycles > cycles_limit {
                     r.c13.violation("template.cycles_exceed_advertised_limit", format!("{cycles} > {cycles_limit}"), wit.clone());
                 }
             }
             Err(e) if e.starts_with("stale") => {
                 r.c13.count("templates_stale");
-                return true;
+                return none;
             }
             Err(e) => {
                 let kind: String = e.split(':').take(2).collect::<Vec<_>>().join(":").chars().take(90).collect();
-                r.c13.violation(&format!("template.rejected_by_own_verification@{kind}"), format!("template on tip {} (#{}) with {} txs, {} proposals, {} uncles fails the node's own verification: {}", hx(&tip), self.tg.rc.get(&tip).number, n_txs, n_props, n_uncles, e), wit.clone());
-                return true;
+                // cause classification (only what the harness can prove from the dump taken right
+                // before the template): the template is over the size / cycle limit, the pool's
+                // own ancestor aggregates of template members are understated (compared with the
+                // recomputation over the pool's links) by at least the excess, and every such
+                // member belongs to a family the C11 taint tracking has marked (aggregates drift
+                // after a late parent / a child committed before its pooled ancestor: known C11
+                // findings). The selector budgets packages by those aggregates.
+                let mut cause = "";
+                let mut all_tainted = true;
+                let mut understated_list: Vec<String> = vec![];
+                let over_bytes = e.contains("ExceededMaximumBlockBytes");
+                let over_cycles = e.contains("ExceededMaximumCycles");
+                if over_bytes || over_cycles {
+                    let by: HashMap<ProposalShortId, &VerifEntry> = pre.entries.iter().map(|x| (x.id.clone(), x)).collect();
+                    let mut understated: u64 = 0;
+                    let mut tpl_cycles_sum: u64 = 0;
+                    for tx in block.transactions().iter().skip(1) {
+                        let Some(en) = by.get(&tx.proposal_short_id()) else { continue };
+                        tpl_cycles_sum += en.cycles;
+                        let anc = transitive(&by, &en.id, true);
+                        let (mut sz, mut cy) = (en.size as u64, en.cycles);
+                        for a in &anc {
+                            if let Some(o) = by.get(a) {
+                                sz += o.size as u64;
+                                cy += o.cycles;
+                            }
+                        }
+                        let u = if over_bytes { sz.saturating_sub(en.ancestors.1 as u64) } else { cy.saturating_sub(en.ancestors.2) };
+                        if u > 0 {
+                            all_tainted &= self.tainted.contains(&en.id) || self.tainted_mid.contains(&en.id);
+                            understated_list.push(format!("{}: pool ancestors (count,size,cycles,fee)={:?}, over its links: count={} size={} cycles={}", id_hex(&en.id), en.ancestors, anc.len() + 1, sz, cy));
+                        }
+                        understated += u;
+                    }
+                    let excess = if over_bytes {
+                        (block.data().serialized_size_without_uncle_proposals() as u64).saturating_sub(bytes_limit)
+                    } else {
+                        tpl_cycles_sum.saturating_sub(cycles_limit)
+                    };
+                    if excess > 0 && understated >= excess && all_tainted {
+                        cause = "@template_tx_ancestor_aggregates_understated_by_pool";
+                        r.c13.count("obs.over_limit_template_with_understated_pool_aggregates");
+                    } else {
+                        understated_list.clear();
+                    }
+                    understated_list.push(format!("excess over the limit: {excess}; total understatement of template members: {understated}"));
+                }
+                let size = block.data().serialized_size_without_uncle_proposals();
+                let signature = if cause.is_empty() {
+                    format!("template.rejected_by_own_verification@{kind}")
+                } else {
+                    format!("template.exceeds_max_block_{}@pool_ancestor_aggregates_understated", if over_bytes { "bytes" } else { "cycles" })
+                };
+                r.c13.violation(&signature, format!("template on tip {} (#{}) with {} txs, {} proposals, {} uncles (size {} / limit {}, cycles limit {}) fails the node's own verification: {}; {}", hx(&tip), self.tg.rc.get(&tip).number, n_txs, n_props, n_uncles, size, bytes_limit, cycles_limit, e, understated_list.join("; ")), wit.clone());
+                return Some((n_txs, n_uncles, n_props, 0));
             }
         }
+        let verdict = Some((n_txs, n_uncles, n_props, tpl_cycles));
         // structural checks
         let size = block.data().serialized_size_without_uncle_proposals() as u64;
         if size > bytes_limit {
@@ -1269,13 +1602,13 @@ impl Sess {
         }
         self.ops.push(format!("template on #{} txs={} props={} uncles={}", self.tg.rc.get(&tip).number, n_txs, n_props, n_uncles));
         // mine a fraction: the node itself and a second node must accept it
-        if self.rng.chance(450, 1000) {
+        if mine_pm > 0 && self.rng.chance(mine_pm, 1000) {
             let res = self.n.chain().blocking_process_block(std::sync::Arc::new(block.clone()));
             r.c13.eval();
             r.c13.count("templates_mined");
             if !matches!(res, Ok(true)) {
                 r.c13.violation("template.mined_block_refused_by_node", format!("{:?}", res.map_err(|e| e.to_string())), wit.clone());
-                return false;
+                return None;
             }
             let known = &self.known;
             let pool_known: HashMap<ProposalShortId, TransactionView> = pre.entries.iter().map(|e| (e.id.clone(), e.tx.clone())).collect();
@@ -1284,16 +1617,513 @@ impl Sess {
                 Ok(_) => {}
                 Err(e) => {
                     r.c13.violation("template.mined_block_refused_by_second_node", e, wit);
-                    return false;
+                    return None;
                 }
             }
             self.now = self.now.max(block.timestamp());
             vnode::node::set_time(self.now);
             self.ops.push(format!("mined template -> tip #{}", block.number()));
             r.c11.count("ops.block");
-            return self.after_tip_change(&pre, tip, r);
+            return if self.after_tip_change(&pre, tip, r) { verdict } else { None };
+        }
+        verdict
+    }
+}
+
+// --------------------------------------------------------------------------------------
+// Directed scenarios: histories the random mix reaches too rarely. Every step goes through the
+// ordinary operations above, so the ordinary oracles judge every intermediate state.
+
+impl Sess {
+    /// Plain always_success cells that are live at N's tip, created at or below block
+    /// `max_number`, neither spent nor used as a cell dep by a pooled transaction and not
+    /// reserved by an earlier scenario. Deterministic order, then shuffled with the scenario rng.
+    fn chain_cells(&mut self, d: &VerifPoolDump, max_number: u64) -> Vec<(OutPoint, u64)> {
+        let st = self.tg.rc.replay(&self.n_tip());
+        let mut used: HashSet<(H, u32)> = d.edge_inputs.iter().map(|(op, _)| op_key(op)).collect();
+        used.extend(d.edge_deps.iter().map(|(op, _)| op_key(op)));
+        let mut v = vec![];
+        for (k, c) in st.cells.iter() {
+            if c.block_number > max_number || used.contains(k) || self.tg.keep.contains(k) {
+                continue;
+            }
+            let Ok(out) = packed::CellOutput::from_slice(&c.output) else { continue };
+            if out.type_().to_opt().is_some() || out.lock().code_hash() != self.gi.always_success_script.code_hash() || out.lock().hash_type() != self.gi.always_success_script.hash_type() {
+                continue;
+            }
+            let cap: u64 = out.capacity().into();
+            v.push((OutPoint::new(packed::Byte32::from_slice(&k.0).unwrap(), k.1), cap));
+        }
+        self.xrng.shuffle(&mut v);
+        v
+    }
+
+    /// One-output transfer of deterministic size: pays `rate` shannons per 1000 bytes (+ `extra`).
+    fn simple_tx(&mut self, inputs: &[(OutPoint, u64)], rate: u64, extra: u64, deps: &[CellDep], pad: usize) -> Option<TransactionView> {
+        let in_cap: u64 = inputs.iter().map(|(_, c)| *c).sum();
+        let ins: Vec<(OutPoint, u64)> = inputs.iter().map(|(op, _)| (op.clone(), 0u64)).collect();
+        let lock = builder::lock_with_args(&self.gi, &[self.xrng.below(4) as u8]);
+        let build = |fee: u64, salt: u64| -> Option<TransactionView> {
+            let mut data = vec![0x5au8; pad];
+            data.extend_from_slice(&salt.to_le_bytes());
+            let cap = in_cap.checked_sub(fee)?;
+            if cap < builder::occupied(&lock, &None, data.len()) {
+                return None;
+            }
+            Some(builder::build_tx(&self.gi, &ins, &[OutSpec { capacity: cap, lock: lock.clone(), type_: None, data }], deps, &[], None))
+        };
+        self.salt += 1;
+        let salt = self.salt;
+        let size = build(0, salt)?.data().serialized_size_in_block() as u64;
+        build(size * rate / 1000 + 1 + extra, salt)
+    }
+
+    fn committed_on_main(&self, tx: &TransactionView) -> bool {
+        self.tg.rc.replay(&self.n_tip()).tx_info.contains_key(&h(&tx.hash()))
+    }
+
+    fn in_proposed_set(&self, txs: &[TransactionView]) -> bool {
+        let (set, _) = self.tg.rc.window_sets(&self.n_tip());
+        txs.iter().all(|t| set.contains(&t.proposal_short_id()))
+    }
+
+    /// Have `txs` proposed by the next block and extend the chain (no further proposals) until
+    /// their ids are in the proposed set of the tip, i.e. the next block may commit them.
+    /// Ok(true): they are; Ok(false): gave up; Err: session must stop.
+    fn propose_and_wait(&mut self, r: &mut Reports, txs: &[TransactionView]) -> Result<bool, ()> {
+        if !self.op_block_ex(r, 0, txs, false) {
+            return Err(());
+        }
+        let w_close = self.tg.rc.window.0;
+        for _ in 0..(w_close + 1) {
+            if self.in_proposed_set(txs) {
+                return Ok(true);
+            }
+            if txs.iter().any(|t| self.committed_on_main(t)) {
+                return Ok(false);
+            }
+            if !self.op_block_ex(r, 0, &[], false) {
+                return Err(());
+            }
+        }
+        Ok(self.in_proposed_set(txs))
+    }
+
+    fn op_flavor_scenario(&mut self, r: &mut Reports) -> bool {
+        match self.flavor {
+            Flavor::SmallBytes => self.op_late_fill(r),
+            Flavor::SmallCycles => self.op_cpfp(r),
+            Flavor::Plain => self.op_template(r),
+        }
+    }
+
+    /// C12: pooled B has a cell dep on cell X, pooled A spends X; a block (plain extension, or a
+    /// competing branch when `reorg`) commits A while B is neither proposed nor committed.
+    fn op_dep_spend(&mut self, r: &mut Reports, reorg: bool) -> bool {
+        let Some(pre) = self.quiesce() else { return false };
+        let tip_n = self.tg.rc.get(&self.n_tip()).number;
+        let (w_close, _) = self.tg.rc.window;
+        let depth = if reorg { (w_close + self.xrng.below(2)).min(tip_n.saturating_sub(1)) } else { 0 };
+        if reorg && depth < w_close {
+            return true;
+        }
+        let cells = self.chain_cells(&pre, tip_n - depth);
+        if cells.len() < 3 {
+            return true;
+        }
+        r.c12.count("ops.scenario_dep_spend");
+        let (x, g1) = (cells[0].clone(), cells[1].clone());
+        let dep = CellDep::new_builder().out_point(x.0.clone()).build();
+        let rate = self.min_fee_rate + 200 + self.xrng.below(3_000);
+        let pad = self.xrng.usize_below(20);
+        let Some(b) = self.simple_tx(&[g1.clone()], rate, 0, &[dep], pad) else { return true };
+        match self.submit_tx(r, &b, &pre, "(dep user)") {
+            None => return false,
+            Some(false) => return true,
+            Some(true) => {}
+        }
+        let Some(pre2) = self.quiesce() else { return false };
+        let mut a_inputs = vec![x.clone()];
+        if self.flavor != Flavor::SmallCycles && self.xrng.chance(300, 1000) {
+            a_inputs.push(cells[2].clone());
+        }
+        let rate = self.min_fee_rate + 200 + self.xrng.below(3_000);
+        let pad = self.xrng.usize_below(20);
+        let Some(a) = self.simple_tx(&a_inputs, rate, 0, &[], pad) else { return true };
+        match self.submit_tx(r, &a, &pre2, "(spender of the dep)") {
+            None => return false,
+            Some(false) => return true,
+            Some(true) => {}
+        }
+        // the builder's own transactions must not interfere with the two
+        for (op, _) in [&x, &g1].into_iter().chain(a_inputs.iter()) {
+            self.tg.keep.insert(op_key(op));
+        }
+        if !self.op_block_ex(r, depth, std::slice::from_ref(&a), false) {
+            return false;
+        }
+        for _ in 0..(w_close + 3) {
+            if self.committed_on_main(&a) {
+                break;
+            }
+            let Some(d) = self.quiesce() else { return false };
+            if !d.entries.iter().any(|e| e.id == a.proposal_short_id()) {
+                break;
+            }
+            if !self.op_block_ex(r, 0, &[], false) {
+                return false;
+            }
         }
         true
+    }
+
+    /// C12 (interleaving): a submission T has passed verification and is parked right before it
+    /// takes the pool's write lock (hook point `pool::before_submit_lock`); meanwhile a block
+    /// arrives (plain extension, or the last block of a competing branch when `reorg`) that
+    /// commits a transaction T' which spends an input of T / spends a cell T depends on / is T
+    /// itself; the pool processes the tip change; T is released. T's answer and the pool are
+    /// judged by the ordinary oracles.
+    fn op_race(&mut self, r: &mut Reports, reorg: bool) -> bool {
+        let Some(pre0) = self.quiesce() else { return false };
+        let tip_n = self.tg.rc.get(&self.n_tip()).number;
+        let (w_close, _) = self.tg.rc.window;
+        let depth = if reorg { (w_close + self.xrng.below(2)).min(tip_n.saturating_sub(1)) } else { 0 };
+        if reorg && depth < w_close {
+            return true;
+        }
+        let cells = self.chain_cells(&pre0, tip_n - depth);
+        if cells.len() < 2 {
+            return true;
+        }
+        r.c12.count("ops.scenario_race");
+        let (x, y) = (cells[0].clone(), cells[1].clone());
+        self.tg.keep.insert(op_key(&x.0));
+        self.tg.keep.insert(op_key(&y.0));
+        let kind = self.xrng.below(3);
+        // T' is known to the rest of the network only (never submitted to N)
+        let rate = self.min_fee_rate + 500 + self.xrng.below(2_000);
+        let pad = self.xrng.usize_below(16);
+        let Some(t_prime) = self.simple_tx(&[x.clone()], rate, 0, &[], pad) else { return true };
+        self.known.insert(t_prime.proposal_short_id(), t_prime.clone());
+        let t = match kind {
+            0 => {
+                let mut ins = vec![x.clone()];
+                if self.flavor != Flavor::SmallCycles && self.xrng.bool() {
+                    ins.push(y.clone());
+                }
+                self.simple_tx(&ins, rate + 700, 0, &[], 3)
+            }
+            1 => {
+                let dep = CellDep::new_builder().out_point(x.0.clone()).build();
+                self.simple_tx(&[y.clone()], rate, 0, &[dep], 3)
+            }
+            _ => Some(t_prime.clone()),
+        };
+        let Some(t) = t else { return true };
+        let kind_name = ["input_spent", "dep_spent", "tx_itself_committed"][kind as usize];
+
+        // the blocks: for an extension T' is proposed first and the chain extended until the
+        // builder commits it; for a reorg one branch proposes and commits it
+        let (pre, blocks, old_tip, depth) = if !reorg {
+            if !self.op_block_ex(r, 0, std::slice::from_ref(&t_prime), true) {
+                return false;
+            }
+            let mut found = None;
+            for _ in 0..(w_close + 4) {
+                let Some(pre) = self.quiesce() else { return false };
+                let (blocks, old_tip, depth) = self.build_blocks(&pre, 0, &[], true);
+                let commits = self.tg.rc.get(&blocks[0]).block.transactions().iter().any(|x| x.hash() == t_prime.hash());
+                if commits {
+                    found = Some((pre, blocks, old_tip, depth));
+                    break;
+                }
+                if !self.deliver(&blocks, r) || !self.finish_block_op(&pre, old_tip, &blocks, depth, r) {
+                    return false;
+                }
+            }
+            match found {
+                Some(f) => f,
+                None => {
+                    r.c12.count("obs.race.conflict_never_committed");
+                    return true;
+                }
+            }
+        } else {
+            let (blocks, old_tip, depth) = self.build_blocks(&pre0, depth, std::slice::from_ref(&t_prime), false);
+            let commits = blocks.iter().any(|b| self.tg.rc.get(b).block.transactions().iter().any(|x| x.hash() == t_prime.hash()));
+            if !commits {
+                r.c12.count("obs.race.conflict_never_committed");
+                if !self.deliver(&blocks, r) {
+                    return false;
+                }
+                return self.finish_block_op(&pre0, old_tip, &blocks, depth, r);
+            }
+            (pre0, blocks, old_tip, depth)
+        };
+        // everything but the block that moves the tip is delivered up front
+        let (last, side) = blocks.split_last().unwrap();
+        if !self.deliver(side, r) {
+            return false;
+        }
+        if self.n_tip() != old_tip {
+            r.c12.inconclusive("harness: side-branch blocks moved the tip before the race");
+            return false;
+        }
+        // park T
+        hooks::arm_gate("pool::before_submit_lock");
+        let ctl = self.n.shared.tx_pool_controller().clone();
+        let t_clone = t.clone();
+        let th = std::thread::Builder::new()
+            .name("verif-race-submit".into())
+            .spawn(move || ctl.submit_local_tx(t_clone))
+            .expect("spawn");
+        let held = hooks::wait_gate_held(Duration::from_secs(15));
+        if !held {
+            // T did not get as far as the insertion step (refused earlier): no race to judge
+            hooks::release_gate();
+            r.c12.count("obs.race.submission_refused_before_insertion_step");
+        }
+        let delivered = self.deliver(std::slice::from_ref(last), r);
+        let mut pool_caught_up = false;
+        if delivered && held {
+            let want = self.n.tip_hash();
+            let t0 = Instant::now();
+            while t0.elapsed() < Duration::from_secs(20) {
+                if let Ok(info) = self.n.shared.tx_pool_controller().get_tx_pool_info() {
+                    if info.tip_hash == want {
+                        pool_caught_up = true;
+                        break;
+                    }
+                }
+                std::thread::sleep(Duration::from_micros(300));
+            }
+        }
+        let released_by_engine = if held { hooks::release_gate() } else { false };
+        let res = th.join();
+        if !delivered {
+            return false;
+        }
+        let res = match res {
+            Ok(Ok(x)) => x.map(|_| ()).map_err(|e| e.to_string()),
+            Ok(Err(e)) => {
+                r.c11.inconclusive(&format!("harness: submit_local_tx channel error {e}"));
+                return false;
+            }
+            Err(_) => {
+                r.c11.inconclusive("harness: submitting thread panicked");
+                return false;
+            }
+        };
+        if held && !pool_caught_up {
+            r.c12.inconclusive("watchdog: pool did not process the tip change within 20 s while a submission was parked before the pool lock");
+            return false;
+        }
+        if held && !released_by_engine {
+            r.c12.inconclusive("harness: the gate timed out before the engine released the parked submission");
+            return false;
+        }
+        if held {
+            r.c12.count("obs.race.submit_held_across_tip_change");
+            r.c12.count(&format!("obs.race.{kind_name}"));
+            if reorg {
+                r.c12.count("obs.race.tip_change_was_reorg");
+            }
+            if res.is_ok() {
+                r.c12.count("obs.race.submission_accepted");
+            }
+        }
+        let label = format!("({}, {kind_name}{})", if held { "parked across tip change" } else { "refused before the insertion step, block delivered afterwards" }, if reorg { ", reorg" } else { "" });
+        // bookkeeping of the block operation first (so that the log reads in causal order), then
+        // the submission is judged against the dump, then the tip-change checks
+        let new_tip = *blocks.last().unwrap();
+        self.now = self.now.max(self.tg.rc.get(&new_tip).block.timestamp());
+        vnode::node::set_time(self.now);
+        self.ops.push(format!("block depth={} -> tip {}#{} (+{} blocks, {} commits) while a submission was parked", depth, hx(&new_tip), self.tg.rc.get(&new_tip).number, blocks.len(), blocks.iter().map(|x| self.tg.rc.get(x).block.transactions().len() - 1).sum::<usize>()));
+        r.c11.count("ops.block");
+        if depth > 0 {
+            r.c12.count("reorgs");
+        }
+        if self.n_tip() != self.tg.tip() {
+            r.c12.violation("node_tip_differs_from_builder_tip", format!("node {} builder {}", hx(&self.n_tip()), hx(&self.tg.tip())), self.witness(json!({})));
+            return false;
+        }
+        // membership / answer consistency; the dump check inside is repeated by after_tip_change
+        // with the chain comparison. `pre` is the dump before both events.
+        let Some(post) = self.quiesce() else {
+            r.c12.inconclusive("watchdog: pool did not catch up with the chain tip in 30 s");
+            return false;
+        };
+        {
+            let id = t.proposal_short_id();
+            let in_pool = post.entries.iter().any(|e| e.id == id);
+            let fee = self.fee_of(&t, &pre);
+            self.ops.push(format!("submit{} {} fee={} -> {}", label, hx(&h(&t.hash())), fee.map(|f| f.to_string()).unwrap_or_else(|| "?".into()), match &res { Ok(_) => "ok".to_string(), Err(e) => e.chars().take(70).collect() }));
+            r.c11.count(if res.is_ok() { "ops.submit_ok" } else { "ops.submit_rejected" });
+            r.c11.eval();
+            if res.is_ok() != in_pool {
+                r.c11.violation(
+                    if res.is_ok() { "submit.accepted_tx_not_in_pool" } else { "submit.rejected_tx_in_pool" },
+                    format!("submit_local_tx returned {:?} but pool membership is {}", res, in_pool),
+                    self.witness(json!({"tx": vbase::hex(t.hash().as_slice()), "parked_across_tip_change": true})),
+                );
+            }
+        }
+        self.after_tip_change_with(&pre, post, old_tip, r)
+    }
+
+    /// C13 (size bookkeeping): transactions that the chain has already proposed reach the pool
+    /// late and fill the template through `update_transactions`; afterwards an uncle candidate
+    /// and fresh pending transactions (new proposals) arrive. Every template is verified.
+    fn op_late_fill(&mut self, r: &mut Reports) -> bool {
+        let Some(pre) = self.quiesce() else { return false };
+        let tip_n = self.tg.rc.get(&self.n_tip()).number;
+        let cells = self.chain_cells(&pre, tip_n);
+        let k = 9 + self.xrng.usize_below(4);
+        if cells.len() < k + 4 {
+            return true;
+        }
+        r.c13.count("ops.scenario_late_fill");
+        let mut txs = vec![];
+        for c in cells.iter().take(k) {
+            let rate = self.min_fee_rate + 100 + self.xrng.below(2_500);
+            let pad = self.xrng.usize_below(48);
+            if let Some(t) = self.simple_tx(std::slice::from_ref(c), rate, 0, &[], pad) {
+                self.tg.keep.insert(op_key(&c.0));
+                self.known.insert(t.proposal_short_id(), t.clone());
+                txs.push(t);
+            }
+        }
+        match self.propose_and_wait(r, &txs) {
+            Err(()) => return false,
+            Ok(false) => return true,
+            Ok(true) => {}
+        }
+        // late arrival: the transactions enter the pool as already proposed
+        let mut proposed_on_arrival = 0;
+        for t in &txs {
+            let Some(d) = self.quiesce() else { return false };
+            match self.submit_tx(r, t, &d, "(late, already proposed on chain)") {
+                None => return false,
+                Some(true) => proposed_on_arrival += 1,
+                Some(false) => {}
+            }
+            if self.xrng.chance(300, 1000) {
+                self.settle_template();
+                if self.check_template(r, 0, true).is_none() {
+                    return false;
+                }
+            }
+        }
+        self.settle_template();
+        let Some((n_txs, _, _, _)) = self.check_template(r, 0, false) else { return false };
+        let filled = proposed_on_arrival >= 3 && n_txs >= 1 && n_txs < proposed_on_arrival;
+        if filled {
+            // fewer transactions in the template than proposed ones in the pool: the size limit binds
+            r.c13.count("obs.late_fill.template_filled_to_size_limit");
+        }
+        // late updates on top of the filled template
+        let steps = 1 + self.xrng.below(3);
+        for step in 0..steps {
+            let uncle = if step == 0 { self.xrng.chance(700, 1000) } else { self.xrng.bool() };
+            if uncle {
+                // a sibling of the tip arrives: uncle candidate
+                let tip = self.n_tip();
+                let tipb = std::sync::Arc::clone(&self.tg.rc.get(&tip).block);
+                self.salt += 1;
+                let header = tipb.header().as_advanced_builder().timestamp(tipb.timestamp() + 1 + step + 3 * (self.salt % 300)).build();
+                let sib = builder::seal(&self.gi.consensus, builder::replace_header(&tipb, header.data()));
+                let res = self.n.chain().blocking_process_block(std::sync::Arc::new(sib.clone()));
+                if res.is_err() || self.n_tip() != tip {
+                    r.c13.inconclusive(&format!("harness: sibling of the tip was answered {:?} / moved the tip", res.map_err(|e| e.to_string())));
+                    return false;
+                }
+                self.ops.push(format!("sibling {} of tip #{} delivered (uncle candidate)", hx(&h(&sib.hash())), tipb.number()));
+                r.c13.count("ops.uncle_candidate_after_fill");
+            } else {
+                for _ in 0..(1 + self.xrng.below(3)) {
+                    if !self.op_submit(r, false) {
+                        return false;
+                    }
+                }
+                r.c13.count("ops.pending_txs_after_fill");
+            }
+            self.settle_template();
+            let Some((n_txs2, _, _, _)) = self.check_template(r, 0, false) else { return false };
+            if filled && n_txs2 >= 1 {
+                r.c13.count("obs.late_fill.templates_after_uncle_or_proposal_update");
+            }
+        }
+        self.check_template(r, 500, false).is_some()
+    }
+
+    /// C13 (cycle budget): independent high-fee-rate transactions next to a child-pays-for-parent
+    /// chain (cheap parent, well paying child), all proposed, in a session whose block cycle limit
+    /// leaves room for the independents plus one and a half transactions.
+    fn op_cpfp(&mut self, r: &mut Reports) -> bool {
+        let Some(pre) = self.quiesce() else { return false };
+        let unit = match UNIT_CYCLES.load(Ordering::Relaxed) {
+            0 => UNIT_CYCLES_DEFAULT,
+            u => u,
+        };
+        let limit = self.max_block_cycles;
+        let fit = limit / unit; // whole transactions per block
+        if fit < 2 || fit > 4 {
+            r.c13.count("obs.cpfp.cycle_limit_does_not_fit_the_unit");
+            return self.op_template(r);
+        }
+        let n_indep = (fit - 1) as usize;
+        let chain_len = 2 + self.xrng.usize_below(2).min((fit - 1) as usize);
+        let tip_n = self.tg.rc.get(&self.n_tip()).number;
+        let cells = self.chain_cells(&pre, tip_n);
+        if cells.len() < n_indep + 1 {
+            return true;
+        }
+        r.c13.count("ops.scenario_cpfp");
+        let mut all: Vec<TransactionView> = vec![];
+        // independents: highest fee rates
+        for c in cells.iter().take(n_indep) {
+            let rate = 9_000 + self.xrng.below(4_000);
+            let Some(t) = self.simple_tx(std::slice::from_ref(c), rate, 0, &[], 0) else { return true };
+            self.tg.keep.insert(op_key(&c.0));
+            all.push(t);
+        }
+        // chain: cheap ancestors, last one pays (package rate between the parent's and the independents')
+        let mut prev: (OutPoint, u64) = cells[n_indep].clone();
+        self.tg.keep.insert(op_key(&prev.0));
+        for i in 0..chain_len {
+            let rate = if i + 1 == chain_len { 5_000 + self.xrng.below(2_500) } else { self.min_fee_rate + self.xrng.below(200) };
+            let Some(t) = self.simple_tx(std::slice::from_ref(&prev), rate, 0, &[], 0) else { return true };
+            let cap: u64 = t.outputs().get(0).unwrap().capacity().into();
+            prev = (OutPoint::new(t.hash(), 0), cap);
+            all.push(t);
+        }
+        for t in &all {
+            let Some(d) = self.quiesce() else { return false };
+            match self.submit_tx(r, t, &d, "(cpfp scenario)") {
+                None => return false,
+                Some(true) => {}
+                Some(false) => return true,
+            }
+        }
+        match self.propose_and_wait(r, &all) {
+            Err(()) => return false,
+            Ok(false) => return true,
+            Ok(true) => {}
+        }
+        let Some(d) = self.quiesce() else { return false };
+        let all_proposed = all.iter().all(|t| d.entries.iter().any(|e| e.id == t.proposal_short_id() && e.status == "proposed"));
+        let unit_ok = all.iter().all(|t| d.entries.iter().find(|e| e.id == t.proposal_short_id()).map(|e| e.cycles == unit).unwrap_or(false));
+        let proposed_cycles: u64 = d.entries.iter().filter(|e| e.status == "proposed").map(|e| e.cycles).sum();
+        self.settle_template();
+        let Some((n_txs, _, _, cycles)) = self.check_template(r, 0, false) else { return false };
+        if all_proposed && unit_ok && proposed_cycles > limit && n_txs >= 1 && (cycles == 0 || cycles + unit > limit) {
+            // the pool offers more cycles than a block may hold and the template is within one
+            // transaction of the limit (cycles == 0: the template was refused and reported)
+            r.c13.count("obs.cpfp.templates_at_cycle_limit");
+        } else if !unit_ok {
+            r.c13.count("obs.cpfp.cycle_limit_does_not_fit_the_unit");
+        }
+        self.check_template(r, 500, false).is_some()
     }
 }
 
